@@ -114,6 +114,11 @@ def main(argv=None):
     sys.path.insert(0, VERIF)
     mod = importlib.import_module("checks." + prop.lower())
     jobs = mod.jobs(tier)
+    if tier == "thorough":
+        # the thorough tier contains the quick tier's jobs verbatim (they run first) plus its own
+        qjobs = mod.jobs("quick")
+        qk = {repr(j) for j in qjobs}
+        jobs = qjobs + [j for j in jobs if repr(j) not in qk]
     if only:
         jobs = [j for j in jobs if only in j[0] or only in repr(j[1])]
     # thorough tier: a wall-time budget for the whole tier.  Jobs not started when it runs out are NOT run and are
